@@ -12,7 +12,7 @@ from rv.props import common as C
 
 LEVEL = "exploration"
 RULE = ("random operation scripts (length <= 40) over a pool of live arrays (0-4 bins, occasionally 17-257 bins) with operations new / add (positive and negative index) / copy / sort / add_empty / remove / concatenate / combine / "
-        "numbins / numitems / sums, items with zero, repeated and dyadic values: numbers, names with a value table, plain objects tracked by identity, and (name, value) tuples; plus bounded-exhaustive scripts: every sequence of <= 4 operations over a 9-operation alphabet "
+        "numbins / numitems / sums / a failing add (an item whose value function raises: every array must stay as it was), items with zero, repeated and dyadic values: numbers, names with a value table, plain objects tracked by identity, and (name, value) tuples; plus bounded-exhaustive scripts: every sequence of <= 4 operations over a 9-operation alphabet "
         "(thorough: <= 5) for both managers; non-trivial = script contains a copy followed by a mutation of either side and a sort of an array with distinct sums; distinct on the script")
 ASSUMPTIONS = ["arrays handed to add_empty / remove / concatenate are used only through the returned array afterwards (the discipline stated in the property)",
                "combine is never called with the same array on both sides (no algorithm does)"]
@@ -99,6 +99,17 @@ def run_script(script, ctx=None):
             _, a, item, idx = op
             binner.add_item_to_bin(live[a], real(item), idx)
             shadow[a][idx].append(item)
+        elif name == "add_unknown":
+            # an item whose value function raises (a name the value map does not know): the call fails, and a failing call must leave every array as it was -
+            # sums still describe the recorded items (checked against the model, which records nothing, by check_all below)
+            _, a, idx = op
+            try:
+                binner.add_item_to_bin(live[a], "<unknown item>", idx)
+                raise Mismatch("add_of_an_item_without_a_value_did_not_fail", {"step": step, "op": op})
+            except Mismatch:
+                raise
+            except Exception:
+                pass
         elif name == "copy":
             a = op[1]
             before = snap(live[a])
@@ -217,6 +228,9 @@ def gen_script(rng, manager, maxlen=40):
             ops.append(["new", k]); sizes[nxt] = k; sums[nxt] = [F(0)] * k; live.append(nxt); nxt += 1
             continue
         a = rng.choice(live)
+        if name == "add" and kind == "names" and sizes[a] and rng.random() < 0.05:
+            ops.append(["add_unknown", a, rng.randrange(sizes[a])])
+            continue
         if name == "add":
             if sizes[a] == 0:
                 continue
